@@ -579,6 +579,8 @@ RULES = [("handle-writers", rule_handle_writers), ("flag-writers", rule_flag_wri
 RULES += engine.premise_rules("c15", ["nonblocking", "io-exits"])
 # "exactly one legal bestmove": the text of the move (C14.move-text)
 RULES += engine.premise_rules("c14", ["move-text"])
+# "exactly one legal bestmove": where the printed move comes from, also when a stop arrives before the first iteration ends (C09)
+RULES += engine.premise_rules("c09", ["one-site", "legal-src"])
 
 
 def run(tier):
